@@ -1284,6 +1284,53 @@ def run(tier, replay=None):
                        'error, whatever the order of the conjuncts'})
         break
 
+  # --- a predicate with several rules, one of which leaves a column only partly determined ([] / null):
+  #     the other rules refine it; under every order of the statements the signature is the refined one (a),
+  #     a consumer using the column at another type and a further rule at another type are rejected (b)
+  stats['refine_family_orders'] = 0
+  REFINE = [('Num', ['1', '2 + 3']), ('Str', ['"a"', '"b" ++ "c"']), ('[Num]', ['[1, 2]', '[3]']), ('[Str]', ['["a"]', '["b", "c"]'])]
+  for inst in range(4 if tier == 'quick' else 40):
+    ty, lits = fam_r.choice(REFINE)
+    vague = '[]' if ty.startswith('[') else 'null'
+    n_vague = fam_r.choice([1, 1, 2])
+    stmts = ['Rf(%s);' % vague] * n_vague + ['Rf(%s);' % fam_r.choice(lits) for _ in range(fam_r.choice([1, 2]))]
+    elem = ty.strip('[]')
+    other_lit = '"z"' if elem == 'Num' else '7'
+    other_ty = 'Str' if elem == 'Num' else 'Num'
+    if ty.startswith('['):
+      good_user = 'Ru(x) :- Rf(l), x in l;'
+      bad_user = 'Ru(x) :- Rf(l), x in l, x == %s;' % other_lit
+      bad_rule = 'Rf([%s]);' % other_lit
+    else:
+      good_user = 'Ru(x) :- Rf(x);'
+      bad_user = 'Ru(x) :- Rf(x), x == %s;' % other_lit
+      bad_rule = 'Rf(%s);' % other_lit
+    mode = fam_r.choice(['accept', 'accept', 'bad_user', 'bad_rule'])
+    prog_stmts = stmts + [good_user if mode in ('accept', 'bad_rule') else bad_user] + ([bad_rule] if mode == 'bad_rule' else [])
+    orders = sorted(set(itertools.permutations(prog_stmts)))
+    if len(orders) > 12:
+      orders = fam_r.sample(orders, 12)
+    if tuple(prog_stmts) not in orders:
+      orders.append(tuple(prog_stmts))      # always: the partly determined rule first
+    exp = {'Rf': 'type Rf(%s);' % ty, 'Ru': 'type Ru(%s);' % elem}
+    for order in orders:
+      text = HEADER + '\n'.join(order) + '\n'
+      fc = full_check(text, ['Rf', 'Ru'], compile_preds=False)
+      stats['refine_family_orders'] += 1
+      if mode == 'accept':
+        if fc['status'] != 'ok' or any(fc['sigs'].get(q) != exp[q] for q in exp):
+          report('refine:%s' % ('signature' if fc['status'] == 'ok' else fc['status']),
+                 {'kind': 'accept', 'text': text, 'expected': exp, 'observed': fc,
+                  'law': '(a) a column that one rule leaves partly determined ([] / null) and another rule determines gets '
+                         'exactly the determined type, whatever the order of the rules'})
+          break
+      elif fc['status'] != 'TypeError':
+        report('refine-clash:%s:%s' % (mode, 'accepted' if fc['status'] == 'ok' else fc['status']),
+               {'kind': 'reject', 'text': text, 'observed': fc,
+                'law': '(b) a column forced to two ground types (by two rules of the predicate, or by a rule and a user of '
+                       'the column) is rejected with a type error, whatever the order of the rules'})
+        break
+
   for name, body, exp, n_comb in FIXED:
     text = HEADER + body
     fc = full_check(text, list(exp), compile_preds=True)
